@@ -477,8 +477,8 @@ def check_rand(case):
 
 
 PARTS = [
-    Part("sim", check_sim, {"quick": 2400, "thorough": 40000}, strategy=st_sim),
-    Part("slr_dz", check_dz, {"quick": 128, "thorough": 3200}, strategy=st_dz,
+    Part("sim", check_sim, {"quick": 3600, "thorough": 40000}, strategy=st_sim),
+    Part("slr_dz", check_dz, {"quick": 192, "thorough": 3200}, strategy=st_dz,
          shrink={"quick": False, "thorough": False}),
-    Part("slr_rand", check_rand, {"quick": 1600, "thorough": 30000}, strategy=st_rand),
+    Part("slr_rand", check_rand, {"quick": 2400, "thorough": 30000}, strategy=st_rand),
 ]
